@@ -36,3 +36,11 @@ Lemma rollback_hook_failure_recorded :
   exists w, final f5_history = Some (w, OErr EOtherErr) /\
             statuses (w_led w) = [(1, SSuperseded); (2, SDeployed); (3, SFailed)].
 Proof. eexists. vm_compute. repeat split. Qed.
+
+(* K9: install --atomic, CREATE a rejected; the automatic uninstall cannot create its
+   pre-delete hook hx again (left behind by pre-install) and aborts: the history is not
+   empty *)
+Lemma atomic_recovery_hook_refuted :
+  exists h w, final h = Some (w, OErr EOtherErr) /\
+              statuses (w_led w) = [(1, SUninstalling)] /\ amem "ConfigMap/hx" (w_objs w) = true.
+Proof. exists k9_history. eexists. vm_compute. repeat split. Qed.
